@@ -38,11 +38,12 @@ def labelName : Label → String
   | .send _ => "send" | .close => "close" | .wakeK _ => "wakeK" | .schedule => "schedule" | .ctxDead => "ctxDead"
   | .jobBegin => "jobBegin" | .prod => "prod" | .inPending => "inPending" | .inEnd => "inEnd" | .yield _ => "yield"
   | .item _ => "item" | .streamDrop => "streamDrop" | .fnDrop => "fnDrop" | .clearFn => "clearFn" | .cons => "cons"
+  | .chuteRun => "chuteRun" | .ctxFree => "ctxFree"
   | .taskWake => "taskWake" | .dropLock => "dropLock" | .dropDone => "dropDone" | .dispose => "dispose" | .setDepth _ => "setDepth"
 
 def allLabelNames : List String :=
   ["send", "close", "wakeK", "schedule", "ctxDead", "jobBegin", "prod", "inPending", "inEnd", "yield", "item",
-   "streamDrop", "fnDrop", "clearFn", "cons", "taskWake", "dropLock", "dropDone", "setDepth"]
+   "streamDrop", "fnDrop", "clearFn", "chuteRun", "ctxFree", "cons", "taskWake", "dropLock", "dropDone", "setDepth"]
 
 def pjName : PJ → String
   | .checkFull => "checkFull" | .closedNotify => "closedNotify" | .clearNsc => "clearNsc" | .pollInput => "pollInput"
@@ -60,12 +61,20 @@ def apply (r : PReplay) (c : Nat) (l : Label) : Except String (PReplay × PState
   | some s =>
     let nm := match l, s.job with
       | .prod, some (p, _) => s!"prod-{pjName p}"
-      | .streamDrop, none => "streamDrop-ext"
-      | .fnDrop, none => "fnDrop-ext"
       | _, _ => labelName l
     match step s l with
     | some s' => .ok ({ r with pipes := r.pipes.put c s', hits := nm :: r.hits }, s')
     | none => .error s!"the model cannot take step `{nm}` on channel {c}: {describe s}"
+
+/-- the silent steps that let go of the poll function (they have no event of their own; what the trace shows
+is the destructor that follows) -/
+def release (r : PReplay) (c : Nat) : Except String PReplay :=
+  match r.pipes.get c with
+  | none => .error s!"no pipe on channel {c}"
+  | some s =>
+    if s.chuteFn then (apply r c .chuteRun).map (·.1)
+    else if s.pollFn && s.job.isNone then (apply r c .ctxFree).map (·.1)
+    else .ok r
 
 def snapshotOf (s : PState) : String :=
   s!"{s.core.pending.length} {s.core.depth} {s.core.closed} {s.core.notify} {s.core.nsc.isSome} {s.core.bp.isSome}"
@@ -156,6 +165,11 @@ def replayEvent (r : PReplay) (ag : Nat) (ws : List String) : Except String PRep
           let k := match r.pipes.get c with | some s => s.wakers.length | none => 0
           let (r1, _) ← apply r c .jobBegin
           return { r1 with kOf := r1.kOf.put kid (c, k), pendingK := r1.pendingK.del ag, begun := r1.begun.put ag c }
+        | none, some c =>
+          -- `*poll_fn = None`: the old value is destroyed while the lock is held, before the `cs` event
+          if (r.pendingPoll.get ag).isSome then return r else
+          let (r1, _) ← apply r c .clearFn
+          return { r1 with begun := r1.begun.put ag c }
         | _, _ => return r
       else return r
     | "cs" =>
@@ -184,10 +198,7 @@ def replayEvent (r : PReplay) (ag : Nat) (ws : List String) : Except String PRep
             let (r1, _) ← apply r c .ctxDead
             if args.getD 1 "" != "none" then .error "the poll function was not taken by the dead-target path"
             else return { r1 with pendingPoll := r1.pendingPoll.del ag }
-          | none, none =>
-            let (r1, _) ← apply r c .clearFn
-            if args.getD 1 "" != "none" then .error "the poll function was not cleared"
-            else return r1
+          | none, none => .error "critical section on a poll function slot outside a poll operation"
       | "P" =>
         match r.pOf.get id with
         | none => .error s!"unknown stream core {nm}"
@@ -219,8 +230,8 @@ def replayEvent (r : PReplay) (ag : Nat) (ws : List String) : Except String PRep
     | "inend" => let (r1, _) ← apply r (natD (args.getD 0 "")) .inEnd; return r1
     | "yielded" => let (r1, _) ← apply r (natD (args.getD 0 "")) (.yield (natD (args.getD 1 ""))); return r1
     | "pitem" => let (r1, _) ← apply r (natD (args.getD 0 "")) (.item (natD (args.getD 1 ""))); return r1
-    | "streamdrop" => let (r1, _) ← apply r (natD (args.getD 0 "")) .streamDrop; return r1
-    | "fndrop" => let (r1, _) ← apply r (natD (args.getD 0 "")) .fnDrop; return r1
+    | "streamdrop" => let r0 ← release r (natD (args.getD 0 "")); let (r1, _) ← apply r0 (natD (args.getD 0 "")) .streamDrop; return r1
+    | "fndrop" => let r0 ← release r (natD (args.getD 0 "")); let (r1, _) ← apply r0 (natD (args.getD 0 "")) .fnDrop; return r1
     | _ => return r
 
 /-- at the end of an execution that ran to quiescence -/
